@@ -3,7 +3,7 @@ import re
 
 from .lib import (ITER_PLUMBING, PLUMBING, borrow_root, callee_allow, callers, closure_args_of_call, element_sources, lit_strs, operand_local)
 from . import absint as _A
-from .lib_c07 import OTHER, decide_object_schema, decide_string_tables, fn_items_reaching, path_states, variant_table
+from .lib_c07 import OTHER, _split_top, decide_mode_merge, decide_object_schema, decide_string_tables, fn_items_reaching, path_states, variant_table
 from .lib_c12 import (STATUS_PATH, TO_STRING, Origin, agg_field_op, closure_captures, coded_impls, const_bool_operand, const_val, direct_element_sources, eval_bool_paths, field_sources, from_impls, norm_ty, op_const_path,
                       only_plumbing, params_of_type, ret_ok_sites, self_of_call)
 
@@ -1155,7 +1155,76 @@ def r11_schema_keywords_are_carried(ctx):
     c08.r1_mapping(Renamed(ctx, "C07.R11", "each JSON-schema keyword of a documented type is published under the OpenAPI keyword of the same meaning"))
 
 
-RULES = [("C07.R10", r10_documented_media_type_is_accepted), ("C07.R11", r11_schema_keywords_are_carried), ("C07.R9", r9_error_reference_names_the_stored_response), ("C07.R8", r8_headers_wrapper_keeps_the_response), ("C07.R7", r7_framework_errors_use_endpoint_error_type), ("C07.R1", r1_type_parameter), ("C07.R2", r2_location), ("C07.R3", r3_content_type), ("C07.R4", r4_response),
+META_ADT = "extractor::common::ExtractorMetadata"
+MODE_ADT = "api_description::ExtensionMode"
+
+
+def _show_mode(v):
+    return "%s%s" % (v[1], "(%s)" % ", ".join(re.sub(r"\d+$", "", str(x[1])[len("mode-payload:"):]) if x and x[0] == "opaque" else "?" for x in v[2]) if v[2] else "")
+
+
+def r12_extension_mode_merge(ctx):
+    """`the document tells the truth about requests` / `what is declared is what is documented`: the extension (pagination, websocket) an
+    operation is documented with is the one its extractors declare, wherever the declaring extractor stands in the handler's argument list.
+    Decided by interpreting each tuple's metadata() (rules/absint.py through lib_c07.MergeInterp) for EVERY assignment of a mode to every
+    member, the members' own metadata() being stubs: the match arms, guards, helpers, folds over lists of function items that happen to
+    implement the merge are not looked at, only what is returned.  (Adversary change C19-G: the merge, factored into a helper, ended in
+    `(_, y) => y`, so (Paginated, None) became None and `x-dropshot-pagination` vanished when a paginated Query was not the last extractor.)"""
+    R = ctx.rule("C07.R12", "for every tuple of extractors (two members or more) the extension mode of the tuple's metadata is the merge of the members' modes: None when "
+                 "every member reports None; the one member's mode, whatever its position, when exactly one member reports a mode other than None; a panic, never a silent "
+                 "pick, when two members report different modes (two equal modes may be returned as that mode or refused)", floor=11)
+    ds = ctx.ds
+    tup = [i for i in ds.impls if i["trait"].endswith("extractor::common::RequestExtractor") and norm_ty(i["self"]).startswith("(")]
+    if not tup:
+        ctx.lost(R, "impl RequestExtractor for tuples")
+        return
+    a = ds.adts.get(MODE_ADT)
+    if not a or "None" not in [v["name"] for v in a["variants"]] or len(a["variants"]) < 2:
+        ctx.lost(R, "%s with a `None` variant and at least one other" % MODE_ADT)
+        return
+    none = ("enum", "None", ())
+    wide = 0
+    for im in tup:
+        x = norm_ty(im["self"])
+        members = _split_top(x[1:-1])
+        if len(members) < 2:
+            continue            # `()` and `(X,)`: nothing to merge (R1 holds `(X,)` to returning X's metadata as it is)
+        wide += 1
+        md = _impl_fn(ds, im, "metadata")
+        if md is None or len(set(members)) != len(members):
+            ctx.lost(R, "metadata of impl RequestExtractor for %s (distinct member types)" % x)
+            continue
+        try:
+            runs = decide_mode_merge(ds, md, members, MEMBER_MD, self_of_call, META_ADT, MODE_ADT)
+        except _A.LeavesFragment as e:
+            ctx.check(R, "merge:%s:decided" % x, False, "the extension mode returned by metadata() could not be decided by interpretation (%s); failing closed" % e, md)
+            continue
+        classes = {}
+        for labels, vals, outs in runs:
+            non = [m for m in members if vals[m] != none]
+            if not non:
+                cls, want, ok = "all-none", "None", outs == {("returns", none)}
+            elif len(non) == 1:
+                cls, want, ok = "only:%s" % non[0], "the mode of %s" % non[0], outs == {("returns", vals[non[0]])}
+            elif len(set(vals[m] for m in non)) == 1:
+                cls, want, ok = "equal-modes", "that mode or a panic", bool(outs) and outs <= {"panics", ("returns", vals[non[0]])}
+            else:
+                cls, want, ok = "different-modes", "a panic", outs == {"panics"}
+            c = classes.setdefault(cls, {"n": 0, "bad": [], "want": want})
+            c["n"] += 1
+            if not ok:
+                c["bad"].append("(%s) gives %s" % (", ".join("%s=%s" % (m, labels[m]) for m in members),
+                                                  " / ".join(sorted(o if o == "panics" else _show_mode(o[1]) for o in outs)) or "nothing"))
+        for cls in sorted(classes):
+            c = classes[cls]
+            ctx.check(R, "merge:%s:%s" % (x, cls), not c["bad"],
+                      "%d assignment(s) of modes to the members interpreted, expected outcome %s: %s" % (
+                          c["n"], c["want"], "all as expected" if not c["bad"] else "; ".join(c["bad"][:4]) + (" ..." if len(c["bad"]) > 4 else "")), md)
+    if not wide:
+        ctx.lost(R, "an impl RequestExtractor for a tuple of two or more extractors")
+
+
+RULES = [("C07.R12", r12_extension_mode_merge), ("C07.R10", r10_documented_media_type_is_accepted), ("C07.R11", r11_schema_keywords_are_carried), ("C07.R9", r9_error_reference_names_the_stored_response), ("C07.R8", r8_headers_wrapper_keeps_the_response), ("C07.R7", r7_framework_errors_use_endpoint_error_type), ("C07.R1", r1_type_parameter), ("C07.R2", r2_location), ("C07.R3", r3_content_type), ("C07.R4", r4_response),
          ("C07.R5", r5_error_schema), ("C07.R6", r6_required)]
 
 A = "dropshot/src/api_description.rs"
@@ -1346,6 +1415,39 @@ SELFTEST = [
      "why": "behaviour-preserving: local inlined"},
 ]
 
+# ---------------------------------------------------------------- R12: the merge of the members' extension modes
+_XC = "dropshot/src/extractor/common.rs"
+_X_MERGE_HEAD = ("            let mut metadata = X::metadata(_body_content_type.clone());\n            extension_mode = match (extension_mode, metadata.extension_mode) {\n"
+                 "                (ExtensionMode::None, x) | (x, ExtensionMode::None) => x,\n                (x, y) if x != y => {\n")
+_X_MERGE = (_X_MERGE_HEAD + "                    panic!(\"incompatible extension modes in tuple: {:?} != {:?}\", x, y);\n                }\n                (_, x) => x,\n            };\n")
+SELFTEST += [
+    {"name": "merge-last-arm-returns-next", "kind": "mutant", "expect": ["C07.R12"],
+     "edits": [(_XC, _X_MERGE_HEAD,
+                "            let mut metadata = X::metadata(_body_content_type.clone());\n            extension_mode = match (extension_mode, metadata.extension_mode) {\n"
+                "                (ExtensionMode::None, x) => x,\n                (x, y) if y != ExtensionMode::None && x != y => {\n")],
+     "why": "the shape of seed C19-G written in place: `(x, None)` folded into the panic guard, so the last arm `(_, x) => x` turns (Paginated, None) into None — "
+            "a paginated Query followed by another extractor is documented without x-dropshot-pagination"},
+    {"name": "merge-conflict-resolved-silently", "kind": "mutant", "expect": ["C07.R12"],
+     "edits": [(_XC, _X_MERGE_HEAD, _X_MERGE_HEAD.replace("(x, y) if x != y => {", "(x, y) if x != y && x == ExtensionMode::Websocket => {"))],
+     "why": "two extractors declaring different extensions no longer refuse the declaration: the later one wins silently"},
+    {"name": "merge-earlier-mode-forgotten-if-chain", "kind": "mutant", "expect": ["C07.R12"],
+     "edits": [(_XC, _X_MERGE,
+                "            let mut metadata = X::metadata(_body_content_type.clone());\n            let next = std::mem::take(&mut metadata.extension_mode);\n"
+                "            extension_mode = if extension_mode == ExtensionMode::None || extension_mode == next {\n                next\n            } else if next != ExtensionMode::None {\n"
+                "                panic!(\"incompatible extension modes in tuple: {:?} != {:?}\", extension_mode, next);\n            } else {\n                next\n            };\n")],
+     "why": "the same loss written as an if / else-if chain: (mode, None) yields None"},
+    {"name": "merge-or-pattern-swapped", "kind": "benign",
+     "edits": [(_XC, _X_MERGE_HEAD, _X_MERGE_HEAD.replace("(ExtensionMode::None, x) | (x, ExtensionMode::None) => x,", "(x, ExtensionMode::None) | (ExtensionMode::None, x) => x,"))],
+     "why": "behaviour-preserving: the alternatives of the or-pattern swapped (both select the other component)"},
+    {"name": "merge-arms-reordered-if-chain", "kind": "benign",
+     "edits": [(_XC, _X_MERGE,
+                "            let mut metadata = X::metadata(_body_content_type.clone());\n            let next = std::mem::take(&mut metadata.extension_mode);\n"
+                "            extension_mode = if next == ExtensionMode::None {\n                extension_mode\n            } else if extension_mode == ExtensionMode::None || extension_mode == next {\n                next\n            } else {\n"
+                "                panic!(\"incompatible extension modes in tuple: {:?} != {:?}\", extension_mode, next);\n            };\n")],
+     "why": "behaviour-preserving: the merge as an if / else-if chain with the cases in another order ((x, None) first, then (None, y) and equal modes, else the panic)"},
+]
+
 LEVEL_TEXT += " Also (R7): every framework-generated error on the endpoint path is converted through the endpoint's declared error type before it becomes a response, so its body matches the documented error schema of a custom error type."
 LEVEL_TEXT += " Also (R9): the $ref an operation uses for its error responses names the components.responses entry that holds that error type's schema."
 LEVEL_TEXT += ' Also (R10 = C09.R8, R11 = C08.R1): the documented media type is matched after normalisation, and schema keywords are carried to the keyword of the same meaning.'
+LEVEL_TEXT += " Also (R12): the extension mode (pagination / websocket) documented for a tuple of extractors is None when no member declares one, the declaring member's mode whatever its position when exactly one does, and a panic when two members declare different ones — decided by interpreting each tuple's metadata() over every assignment of modes to its members (the members' own metadata() stubbed)."
